@@ -83,6 +83,12 @@ PROPS.update({
         "rule": "for each sampled world (1..4 parallel tasks + 0..3 waiting stages, hooks, conditions, contexts, processes that die at once or ignore the interrupt until killed) and its base schedule, Cancel is injected at EVERY controller step index 0..23 (index mod 24; beyond the end of the run = after everything returned), via TaskRunner.Cancel or Scheduler.Cancel, optionally a second Cancel, or from a stage-condition error; SCHED part: same enumeration (16 positions) against the stub Runner. distinct = canonical event-log hash; all runs are non-trivial (a fault fires in each)",
         "assumptions": _INTEG_ASSUME + ["condition and context service commands run under context.Background() by design and are exempt from 'terminates the commands that are running'"],
     },
+    "C14": {
+        "level": "exploration",
+        "parts": [{"engine": "fault", "profile": "c14", "weight": 1}],
+        "rule": "worlds: 1..3 contexts with 0..2 up/down/before/after service commands (up fails with p=0.1 per command), 1..5 (thorough 8) tasks spread over them with/without before/after/condition/allow_failure and failing commands, started simultaneously, one after another, or as parallel/chained stages; Finish called once or twice. Schedule space: which goroutine parked at Run entry / Up entry / inside a command proceeds next, including releasing further tasks into Up() while `up` is still running (limbo fast-forward). distinct = canonical event-log hash; all runs non-trivial",
+        "assumptions": _INTEG_ASSUME + ["a skipped task may have zero or one before/after hook block; a context whose up failed may or may not get its down commands (statement silent)", "context hook commands are attributed to task executions by goroutine id"],
+    },
     "C13": {
         "level": "fault_enumeration",
         "parts": [{"engine": "fault", "profile": "c13", "weight": 1}],
@@ -106,6 +112,7 @@ _TXT.update({
     "C07": ("exploration", "Every exit status at every command position is injected (systematic part) and the reported fields, returned errors and stage statuses are compared with the model; random worlds add hooks, conditions, pipelines.", "a failing before-hook must make Run return an error; Errored/ExitCode are not compared in that case (statement speaks about commands)"),
     "C11": ("exploration", "Byte-exact comparison of captured output with what the simulated processes wrote, and of the environment every dependant's commands actually receive, across DAG positions and completion orders.", "only direct dependants are constrained; values travel through the real env/interpreter path"),
     "C12": ("fault_enumeration", "Cancel is injected at every step index of each sampled run (plus before the run, after it, twice, via a condition error); rules: process survives, Cancel returns, run returns, running commands interrupted, nothing starts after Cancel returned, no interrupted/unstarted task reports success.", "enumeration is over controller steps of sampled worlds and schedules, not over all worlds"),
+    "C14": ("exploration", "Hook exec history per context compared with the statement: up once and finished before anything else of the context (also for tasks racing into Up while it runs), before/after exactly once around each task execution (per-goroutine pattern), down once at Finish for used contexts only.", "sampled worlds and schedules; CLI part (Finish on failed targets) covered by the CLI profile"),
     "C13": ("fault_enumeration", "The overrunning command is placed at every position of each sampled task under six process shapes; deadlines are compared exactly on the fake clock (start+timeout per command).", "positions x shapes are enumerated per sampled task; tasks and timeouts are sampled"),
 })
 for _k, (_lvl, _t, _n) in _TXT.items():
@@ -121,7 +128,6 @@ NOT_APPLICABLE = [
     {"property_id": "C17", "reason": "import closure is a pure function of a directory tree; termination is recursion on a finite structure, not a schedule"},
     {"property_id": "C18", "reason": "load-time reference validation is pure; needs malformed inputs, not schedules or faults"},
     {"property_id": "C08", "reason": "TEMPORARY: INTEG engine under construction (claimed in DESIGN.md)"},
-    {"property_id": "C14", "reason": "TEMPORARY: INTEG engine under construction (claimed in DESIGN.md)"},
     {"property_id": "C19", "reason": "TEMPORARY: INTEG engine under construction (claimed in DESIGN.md)"},
     {"property_id": "C20", "reason": "TEMPORARY: WATCH engine under construction (claimed in DESIGN.md)"},
 ]
